@@ -56,7 +56,9 @@ def run(ctx):
         return [None,
                 {"fscale": 4, "ftype": "mixed"},
                 {"hetero": True, "via": "utils", "save_elite": j % 8 == 2},
-                {"fscale": 4, "foffset": 16001, "ftype": ("np64", "np32", "int")[j % 3], "hetero": True}][(j + j // 2) % 4]
+                {"fscale": 4, "foffset": 16001, "ftype": ("np64", "np32", "int")[j % 3], "hetero": True},
+                # returns of magnitude 2e7 that differ by 1: exact in float64 / int, below the float32 spacing (seed C05-g)
+                {"fscale": 1, "foffset": 20000001, "ftype": ("float", "np64", "int")[j % 3]}][(j + j // 2) % 5]
     algos = ["DQN", "DDPG", "NeuralUCB"] if quick else ["DQN", "DDPG", "PPO", "NeuralUCB", "MADDPG", "RainbowDQN", "TD3", "IPPO"]
     # systematic: ties, negatives, unequal lengths
     hists = [[[1], [1], [1]], [[-1, 2], [2, -1], [0]], [[3], [1, 1, 4], [2, 2]], [[0, 0, 5], [5], [-3, 4, 1]]]
@@ -81,7 +83,7 @@ def run(ctx):
         n_pop = rng.randint(1, 5)
         h = [[rng.randint(-2, 3) for _ in range(rng.randint(1, 4))] for _ in range(n_pop)]
         jobs.append((rng.choice(algos), n_pop, rng.randint(1, 4), rng.randint(1, 6), rng.random() < 0.6, rng.randint(1, 4), h, rng.randint(2, 5), ctx.seed + j,
-                     opts_for(rng.randint(0, 7))))
+                     opts_for(rng.randint(0, 9))))
         j += 1
     with ProcessPoolExecutor(max_workers=12) as ex:
         pending = ex.map(_run, jobs)           # the real-code runs start now; TLC model-checks the specification meanwhile
@@ -96,7 +98,7 @@ def run(ctx):
     ctx.extra["generations_validated"] = sum(len(t["ev"]) for t in traces)
     ctx.validate("EvoSelect_Trace", TRACE_CFG, traces, sig=sig, what=what, chunk=200)
     ctx.extra["input_variations"] = sorted({str(jb[9]) for jb in jobs})
-    ctx.assume("fitness scores are dyadic rationals of small magnitude (multiples of 1 or 1/4, |x| < 4100) so that np.mean comparisons agree with "
+    ctx.assume("fitness scores are dyadic rationals (multiples of 1 or 1/4 with |x| < 4100, or integers near 2e7) so that np.mean comparisons agree with "
                "exact rational comparison; empty fitness histories are outside the quantifier")
     ctx.assume("the population is a list (the documented PopulationType); accelerator-wrapped agents are outside this check")
     ctx.assume("parents are identified by weight fingerprints (every initial member is trained on a different batch)")
